@@ -72,6 +72,161 @@ Proof.
   - apply String.eqb_refl.
 Qed.
 
+(* ---------- equivb is symmetric and transitive on well-formed types ---------- *)
+Lemma keys_back (r r' : list (string * ty)) :
+  NoDup (map fst r) -> List.length r = List.length r' -> incl (map fst r) (map fst r') ->
+  incl (map fst r') (map fst r).
+Proof.
+  intros ND L I. apply NoDup_length_incl; [exact ND| |exact I]. rewrite !map_length. lia.
+Qed.
+
+Lemma forallb2_sym_in (xs : list ty) : forall ys,
+  Forall (fun x => forall b, wf_ty x -> wf_ty b -> equivb x b = true -> equivb b x = true) xs ->
+  Forall wf_ty xs -> Forall wf_ty ys -> forallb2 equivb xs ys = true -> forallb2 equivb ys xs = true.
+Proof.
+  induction xs as [|x xs IHxs]; intros [|y ys] IH Wa Wb E; cbn [forallb2] in *; try discriminate E; [reflexivity|].
+  apply andb_prop in E. destruct E as [E1 E2].
+  inversion IH; subst. inversion Wa; subst. inversion Wb; subst.
+  apply andb_true_intro; split; auto.
+Qed.
+
+Lemma fsubE_sym r r' :
+  Forall (fun f => forall b, wf_ty (snd f) -> wf_ty b -> equivb (snd f) b = true -> equivb b (snd f) = true) r ->
+  NoDup (map fst r) -> NoDup (map fst r') -> List.length r = List.length r' ->
+  Forall (fun f => wf_ty (snd f)) r -> Forall (fun f => wf_ty (snd f)) r' ->
+  fsubE r r' = true -> fsubE r' r = true.
+Proof.
+  intros IH ND ND' L W W' E.
+  pose proof (keys_back _ _ ND L (fsubE_keys _ _ E)) as I'.
+  unfold fsubE in *. rewrite forallb_forall in E. rewrite Forall_forall in IH, W, W'.
+  apply forallb_forall. intros [s ft'] Hf'. cbn [fst snd].
+  assert (Hk : In s (map fst r)) by (apply I'; apply (in_map fst) in Hf'; exact Hf').
+  apply in_map_iff in Hk. destruct Hk as [[s0 ft] [Es Hf]]. cbn [fst] in Es. subst s0.
+  rewrite (lookup_f_NoDup s ft r ND Hf).
+  pose proof (E _ Hf) as E1. cbn [fst snd] in E1.
+  rewrite (lookup_f_NoDup s ft' r' ND' Hf') in E1.
+  apply (IH _ Hf); cbn [snd]; [apply (W _ Hf)|apply (W' _ Hf')|exact E1].
+Qed.
+
+Lemma equivb_sym a : forall b, wf_ty a -> wf_ty b -> equivb a b = true -> equivb b a = true.
+Proof.
+  induction a as [ | c | x IH | | x IH | x IH | x IH | k v0 IHk IHv | k v0 IHk IHv | xs IH | x IH
+                 | a1 a2 a3 IH1 IH2 IH3 | xs IH | r o IHr IHo | s ] using ty_ind';
+    intros b Wa Wb E; destruct b; cbn [equivb] in E; try discriminate E; cbn [equivb]; try reflexivity;
+    try (apply IH; assumption).
+  - rewrite N.eqb_sym. exact E.
+  - cbn [wf_ty] in *. destruct Wa, Wb. apply andb_prop in E. destruct E.
+    rewrite IHk, IHv by assumption. reflexivity.
+  - cbn [wf_ty] in *. destruct Wa, Wb. apply andb_prop in E. destruct E.
+    rewrite IHk, IHv by assumption. reflexivity.
+  - change (equivb (TTuple xs) (TTuple ts) = true) in E. change (equivb (TTuple ts) (TTuple xs) = true).
+    rewrite equivb_TTuple in *. apply wf_TTuple in Wa. apply wf_TTuple in Wb.
+    apply forallb2_sym_in; assumption.
+  - cbn [wf_ty] in *. destruct Wa as [? [? ?]], Wb as [? [? ?]].
+    apply andb_prop in E. destruct E as [E E3]. apply andb_prop in E. destruct E as [E1 E2].
+    rewrite IH1, IH2, IH3 by assumption. reflexivity.
+  - change (equivb (TUnion xs) (TUnion ts) = true) in E. change (equivb (TUnion ts) (TUnion xs) = true).
+    rewrite equivb_TUnion in *. apply wf_TUnion in Wa. apply wf_TUnion in Wb.
+    apply andb_prop in E. destruct E as [E1 E2]. rewrite forallb_forall in E1, E2.
+    rewrite Forall_forall in IH, Wa, Wb.
+    apply andb_true_intro; split; apply forallb_forall; intros z Hz; apply existsb_exists.
+    + specialize (E2 z Hz). apply existsb_exists in E2. destruct E2 as [x [Hx Exz]].
+      exists x. split; [exact Hx|]. apply (IH x Hx); auto.
+    + specialize (E1 z Hz). apply existsb_exists in E1. destruct E1 as [y [Hy Ezy]].
+      exists y. split; [exact Hy|]. apply (IH z Hz); auto.
+  - change (equivb (TTypedDict r o) (TTypedDict req opt) = true) in E.
+    change (equivb (TTypedDict req opt) (TTypedDict r o) = true).
+    rewrite equivb_TTypedDict in *.
+    apply wf_TTypedDict in Wa. apply wf_TTypedDict in Wb.
+    destruct Wa as [NDa [Wr Wo]], Wb as [NDb [Wr' Wo']].
+    apply andb_prop in E. destruct E as [E Eo]. apply andb_prop in E. destruct E as [E Elo].
+    apply andb_prop in E. destruct E as [Elr Er]. apply Nat.eqb_eq in Elr, Elo.
+    rewrite <- Elr, <- Elo, !Nat.eqb_refl. cbn [andb]. rewrite andb_true_r.
+    apply andb_true_intro; split.
+    + apply fsubE_sym; try assumption; [eapply NoDup_app_l; exact NDa|eapply NoDup_app_l; exact NDb].
+    + apply fsubE_sym; try assumption; [eapply NoDup_app_r; exact NDa|eapply NoDup_app_r; exact NDb].
+  - rewrite String_eqb_sym. exact E.
+Qed.
+
+Lemma forallb2_trans_in (xs : list ty) : forall ys zs,
+  Forall (fun x => forall b c, wf_ty x -> wf_ty b -> wf_ty c ->
+                               equivb x b = true -> equivb b c = true -> equivb x c = true) xs ->
+  Forall wf_ty xs -> Forall wf_ty ys -> Forall wf_ty zs ->
+  forallb2 equivb xs ys = true -> forallb2 equivb ys zs = true -> forallb2 equivb xs zs = true.
+Proof.
+  induction xs as [|x xs IHxs]; intros [|y ys] [|z zs] IH Wa Wb Wc E1 E2; cbn [forallb2] in *;
+    try discriminate E1; try discriminate E2; [reflexivity|].
+  apply andb_prop in E1. destruct E1 as [E1 E1']. apply andb_prop in E2. destruct E2 as [E2 E2'].
+  inversion IH as [|? ? IHx IHr]; subst. inversion Wa; subst. inversion Wb; subst. inversion Wc; subst.
+  apply andb_true_intro; split; [apply (IHx y z); assumption|apply (IHxs ys zs); assumption].
+Qed.
+
+Lemma fsubE_trans r r' r'' :
+  Forall (fun f => forall b c, wf_ty (snd f) -> wf_ty b -> wf_ty c ->
+                               equivb (snd f) b = true -> equivb b c = true -> equivb (snd f) c = true) r ->
+  Forall (fun f => wf_ty (snd f)) r -> Forall (fun f => wf_ty (snd f)) r' -> Forall (fun f => wf_ty (snd f)) r'' ->
+  fsubE r r' = true -> fsubE r' r'' = true -> fsubE r r'' = true.
+Proof.
+  intros IH W W' W'' E1 E2. unfold fsubE in *. rewrite forallb_forall in E1, E2.
+  rewrite Forall_forall in IH, W, W', W''.
+  apply forallb_forall. intros [s ft] Hf. cbn [fst snd].
+  pose proof (E1 _ Hf) as A. cbn [fst snd] in A.
+  destruct (lookup_f s r') as [ft'|] eqn:L'; [|discriminate A].
+  pose proof (lookup_f_In _ _ _ L') as Hf'.
+  pose proof (E2 _ Hf') as B. cbn [fst snd] in B.
+  destruct (lookup_f s r'') as [ft''|] eqn:L''; [|discriminate B].
+  pose proof (lookup_f_In _ _ _ L'') as Hf''.
+  apply (IH _ Hf ft' ft''); cbn [snd]; [apply (W _ Hf)|apply (W' _ Hf')|apply (W'' _ Hf'')|exact A|exact B].
+Qed.
+
+Lemma equivb_trans a : forall b c, wf_ty a -> wf_ty b -> wf_ty c ->
+  equivb a b = true -> equivb b c = true -> equivb a c = true.
+Proof.
+  induction a as [ | c0 | x IH | | x IH | x IH | x IH | k v0 IHk IHv | k v0 IHk IHv | xs IH | x IH
+                 | a1 a2 a3 IH1 IH2 IH3 | xs IH | r o IHr IHo | s ] using ty_ind';
+    intros b c Wa Wb Wc E1 E2; destruct b; cbn [equivb] in E1; try discriminate E1;
+    destruct c; cbn [equivb] in E2; try discriminate E2; cbn [equivb]; try reflexivity;
+    try (apply (IH b c); assumption).
+  - apply N.eqb_eq in E1, E2. subst. apply N.eqb_refl.
+  - cbn [wf_ty] in *. destruct Wa, Wb, Wc. apply andb_prop in E1, E2. destruct E1, E2.
+    apply andb_true_intro; split; [apply (IHk b1 c1)|apply (IHv b2 c2)]; assumption.
+  - cbn [wf_ty] in *. destruct Wa, Wb, Wc. apply andb_prop in E1, E2. destruct E1, E2.
+    apply andb_true_intro; split; [apply (IHk b1 c1)|apply (IHv b2 c2)]; assumption.
+  - change (equivb (TTuple xs) (TTuple ts) = true) in E1. change (equivb (TTuple ts) (TTuple ts0) = true) in E2.
+    change (equivb (TTuple xs) (TTuple ts0) = true).
+    rewrite equivb_TTuple in *. apply wf_TTuple in Wa. apply wf_TTuple in Wb. apply wf_TTuple in Wc.
+    apply (forallb2_trans_in xs ts ts0); assumption.
+  - cbn [wf_ty] in *. destruct Wa as [? [? ?]], Wb as [? [? ?]], Wc as [? [? ?]].
+    apply andb_prop in E1. destruct E1 as [E1 E13]. apply andb_prop in E1. destruct E1 as [E11 E12].
+    apply andb_prop in E2. destruct E2 as [E2 E23]. apply andb_prop in E2. destruct E2 as [E21 E22].
+    apply andb_true_intro; split; [apply andb_true_intro; split|]; [apply (IH1 b1 c1)|apply (IH2 b2 c2)|apply (IH3 b3 c3)]; assumption.
+  - change (equivb (TUnion xs) (TUnion ts) = true) in E1. change (equivb (TUnion ts) (TUnion ts0) = true) in E2.
+    change (equivb (TUnion xs) (TUnion ts0) = true).
+    rewrite equivb_TUnion in *. apply wf_TUnion in Wa. apply wf_TUnion in Wb. apply wf_TUnion in Wc.
+    apply andb_prop in E1. destruct E1 as [A1 A2]. apply andb_prop in E2. destruct E2 as [B1 B2].
+    rewrite forallb_forall in A1, A2, B1, B2. rewrite Forall_forall in IH, Wa, Wb, Wc.
+    apply andb_true_intro; split; apply forallb_forall; intros u Hu; apply existsb_exists.
+    + specialize (A1 u Hu). apply existsb_exists in A1. destruct A1 as [y [Hy Euy]].
+      specialize (B1 y Hy). apply existsb_exists in B1. destruct B1 as [z [Hz Eyz]].
+      exists z. split; [exact Hz|]. apply (IH u Hu y z); auto.
+    + specialize (B2 u Hu). apply existsb_exists in B2. destruct B2 as [y [Hy Eyu]].
+      specialize (A2 y Hy). apply existsb_exists in A2. destruct A2 as [x [Hx Exy]].
+      exists x. split; [exact Hx|]. apply (IH x Hx y u); auto.
+  - change (equivb (TTypedDict r o) (TTypedDict req opt) = true) in E1.
+    change (equivb (TTypedDict req opt) (TTypedDict req0 opt0) = true) in E2.
+    change (equivb (TTypedDict r o) (TTypedDict req0 opt0) = true).
+    rewrite equivb_TTypedDict in *.
+    apply wf_TTypedDict in Wa. apply wf_TTypedDict in Wb. apply wf_TTypedDict in Wc.
+    destruct Wa as [NDa [Wr Wo]], Wb as [NDb [Wr' Wo']], Wc as [NDc [Wr'' Wo'']].
+    apply andb_prop in E1. destruct E1 as [E1 Eo1]. apply andb_prop in E1. destruct E1 as [E1 Elo1].
+    apply andb_prop in E1. destruct E1 as [Elr1 Er1]. apply Nat.eqb_eq in Elr1, Elo1.
+    apply andb_prop in E2. destruct E2 as [E2 Eo2]. apply andb_prop in E2. destruct E2 as [E2 Elo2].
+    apply andb_prop in E2. destruct E2 as [Elr2 Er2]. apply Nat.eqb_eq in Elr2, Elo2.
+    rewrite Elr1, Elr2, Elo1, Elo2, !Nat.eqb_refl. cbn [andb]. rewrite andb_true_r.
+    apply andb_true_intro; split; [apply (fsubE_trans r req req0)|apply (fsubE_trans o opt opt0)]; assumption.
+  - apply String.eqb_eq in E1, E2. subst. apply String.eqb_refl.
+Qed.
+
 (* ---------- equivb implies the same members, at every position ---------- *)
 Section EquivMember.
 Variable anyb : bool.
@@ -84,14 +239,6 @@ Proof. induction l as [|x r IH]; intros H; [reflexivity|]. cbn [forallb].
 
 Lemma bool_eq_iff (a b : bool) : (a = true -> b = true) -> (b = true -> a = true) -> a = b.
 Proof. destruct a, b; intros H1 H2; try reflexivity; [symmetry; apply H1|apply H2]; reflexivity. Qed.
-
-(* same key sets from length + inclusion + NoDup *)
-Lemma keys_back (r r' : list (string * ty)) :
-  NoDup (map fst r) -> List.length r = List.length r' -> incl (map fst r) (map fst r') ->
-  incl (map fst r') (map fst r).
-Proof.
-  intros ND L I. apply NoDup_length_incl; [exact ND| |exact I]. rewrite !map_length. lia.
-Qed.
 
 Lemma member_equivb_aux a : forall b v,
   wf_ty a -> wf_ty b -> equivb a b = true -> mem v a = mem v b.
